@@ -358,6 +358,7 @@ def verify_grid_loop(run):
     active = z3.Function("is_active", Ref, z3.BoolSort())
     D = z3.Function("digits", z3.IntSort(), IntArr)          # ghost: the digits at the head of iteration m
     RET = z3.Function("incremented_after", z3.IntSort(), z3.BoolSort())
+    ROW = z3.Function("row_of_iteration", z3.IntSort(), SeqXR)          # ghost: the row built in iteration m
     mS, iS = z3.Int("m*"), z3.Int("i*")
     SeqRow = z3.SeqSort(SeqXR)
     MINV, MAXV, VAL = H0["Variable.minimum"], H0["Variable.maximum"], H0["Variable._value"]
@@ -447,9 +448,10 @@ def verify_grid_loop(run):
         sv = p.env["sample_values"]
         inc = ex_.boo(p.env["incremented"]).b if not isinstance(p.env["incremented"], bool) else z3.BoolVal(p.env["incremented"])
         i = z3.Int("i")
-        return z3.And(sv.n == n, z3.ForAll([i], z3.Implies(z3.And(0 <= i, i < n), sv.arr[i] == D(m)[i])), z3.Length(rows) == m,
+        return z3.And(sv.n == n, z3.ForAll([i], z3.Implies(z3.And(0 <= i, i < n), sv.arr[i] == D(m)[i])), z3.Implies(z3.And(0 <= iS, iS < n), sv.arr[iS] == D(m)[iS]), z3.Length(rows) == m,
                       inc == z3.If(m == 0, True, RET(m - 1)),
-                      z3.Implies(z3.And(0 <= mS, mS < m), row_ok(rows[mS], D(mS))),
+                      z3.Implies(z3.And(0 <= mS, mS < m), rows[mS] == ROW(mS)),
+                      z3.Implies(z3.And(0 <= mS, mS < m), row_ok(ROW(mS), D(mS))),
                       z3.Implies(z3.And(0 <= mS, mS + 1 < m), RET(mS)),
                       z3.Implies(z3.And(0 <= mS, mS + 1 <= m), z3.If(n == 0, z3.Not(RET(mS)), succ_spec(D(mS), D(mS + 1), RET(mS), ZERO, mxv, n - 1, n))))
 
@@ -457,7 +459,8 @@ def verify_grid_loop(run):
         sv = q.env["sample_values"]
         inc = ex_.boo(q.env["incremented"]).b
         i = z3.Int("i")
-        return [z3.ForAll([i], z3.Implies(z3.And(0 <= i, i < n), D(m + 1)[i] == sv.arr[i])), RET(m) == inc]
+        row = ex_.local(q, "row")
+        return [z3.ForAll([i], z3.Implies(z3.And(0 <= i, i < n), D(m + 1)[i] == sv.arr[i])), RET(m) == inc] + ([ROW(m) == row.q] if isinstance(row, SeqV) else [])
 
     def inner_inv(ex_, p, k, seq):
         row = ex_.local(p, "row")
@@ -496,7 +499,7 @@ def verify_grid_loop(run):
         M = z3.Length(rows)
         hy = q.pc
         run.add(Obl(f"{fq}/grid.first_point_is_all_minimum_digits[call{k}]", hy, z3.And(M >= 1, z3.Implies(z3.And(0 <= iS, iS < n), D(0)[iS] == 0)), fn=fq, meta={"replay": dict(RP_FLD, kwargs={"budget": 40, "only_class": "fld-coordinates"})}, qf=False))
-        run.add(Obl(f"{fq}/grid.row_m_holds_the_coordinates_of_point_m[call{k}]", hy, z3.Implies(z3.And(0 <= mS, mS < M), row_ok(rows[mS], D(mS))), fn=fq, meta={"replay": dict(RP_FLD, kwargs={"budget": 40, "only_class": "fld-coordinates"})}, qf=False))
+        run.add(Obl(f"{fq}/grid.row_m_holds_the_coordinates_of_point_m[call{k}]", hy, z3.Implies(z3.And(0 <= mS, mS < M), z3.And(rows[mS] == ROW(mS), row_ok(rows[mS], D(mS)))), fn=fq, meta={"replay": dict(RP_FLD, kwargs={"budget": 40, "only_class": "fld-coordinates"})}, qf=False))
         run.add(Obl(f"{fq}/grid.next_point_is_the_successor_last_input_fastest[call{k}]", hy,
                     z3.Implies(z3.And(0 <= mS, mS + 1 < M), z3.And(RET(mS), z3.If(n == 0, z3.BoolVal(True), succ_spec(D(mS), D(mS + 1), RET(mS), ZERO, mxv, n - 1, n)))), fn=fq,
                     meta={"replay": dict(RP_FLD, kwargs={"budget": 40, "only_class": "fld-order"})}, qf=False))
